@@ -42,8 +42,9 @@ func chunkAlphabet(keys []string, thorough bool) []wire.Op {
 	var out []wire.Op
 	seed := 0
 	for _, spare := range []bool{false, true} {
-		for _, k := range keys {
+		for ki, k := range keys {
 			p := payloadFor(len(k))
+			nk := keys[(ki+1)%len(keys)]
 			v := func(kind string, n int, flags, ttl uint32) wire.Op {
 				seed++
 				return wire.Op{Kind: kind, Key: k, VGen: true, VLen: n, VSeed: seed, Flags: flags, TTL: ttl, Spare: spare}
@@ -60,6 +61,9 @@ func chunkAlphabet(keys []string, thorough bool) []wire.Op {
 				wire.Op{Kind: "delete", Key: k, Spare: spare},
 				wire.Op{Kind: "touch", Key: k, TTL: 100, Spare: spare},
 				wire.Op{Kind: "gat", Key: k, TTL: 0, Spare: spare},
+				// multi-key gets: responses of one request must not share buffers
+				wire.Op{Kind: "mget", Keys: []string{k, nk}, Spare: spare},
+				wire.Op{Kind: "mget", Keys: []string{nk, k, k}, Spare: spare},
 			)
 			if thorough {
 				out = append(out, v("set", p-1, 3, 0), v("set", 2*p, 4, 0))
@@ -174,6 +178,7 @@ func runC04(c *rt.Ctx) {
 				kb[i] = 'A' + kb[i]%26
 			}
 			key = string(kb)
+			key2 := key[:kl-1] + "~" // a second key of the same length for multi-key gets
 			p := payloadFor(kl)
 			lens := map[int]bool{0: true, 1: true}
 			for k := 1; k <= maxK; k++ {
@@ -185,6 +190,10 @@ func runC04(c *rt.Ctx) {
 				ops := []wire.Op{
 					{Kind: "set", Key: key, VGen: true, VLen: n, VSeed: seed + kl, Flags: uint32(n) ^ 0xa5a5a5a5, TTL: 0, Spare: spare},
 					{Kind: "get", Key: key, Spare: spare},
+					{Kind: "set", Key: key2, VGen: true, VLen: n/2 + 1, VSeed: seed + 3000, Flags: 9, Spare: spare},
+					{Kind: "mget", Keys: []string{key, key2, key}, Spare: spare},
+					{Kind: "mget", Keys: []string{key2, key}, Spare: spare},
+					{Kind: "delete", Key: key2, Spare: spare},
 					{Kind: "gat", Key: key, TTL: 1000, Spare: spare},
 					{Kind: "append", Key: key, VGen: true, VLen: 3, VSeed: seed + 1000, Spare: spare},
 					{Kind: "get", Key: key, Spare: spare},
